@@ -158,7 +158,7 @@ def match_state(view, cent, crit, tf, tol=1e-8, free=()):
     return True, ""
 
 
-def walk(em, g, tf=None, dask_mode=None, sched_factory=None, finite_on_empty=False, maxstep=6):
+def walk(em, g, tf=None, dask_mode=None, sched_factory=None, finite_on_empty=False, maxstep=6, dtype=None):
     """Replay one scenario group (data, composition, cap, threshold) from every initial centroid set TLC
     explored for it.  Yields (init, verdict, detail) with verdict in {"ok","left-domain","skip"} or a clause."""
     edges = g["edges"]
@@ -167,17 +167,24 @@ def walk(em, g, tf=None, dask_mode=None, sched_factory=None, finite_on_empty=Fal
         for e in lst:
             if e["f"]["step"] == 0 and key(e["f"]) not in seen:
                 seen.add(key(e["f"]))
-                v, d = walk_from(em, g, e["f"], tf, dask_mode, sched_factory, finite_on_empty, maxstep)
+                v, d = walk_from(em, g, e["f"], tf, dask_mode, sched_factory, finite_on_empty, maxstep, dtype)
                 yield [[float(fr(x)) for x in row] for row in e["f"]["cent"]], v, d
 
 
-def walk_from(em, g, init_view, tf=None, dask_mode=None, sched_factory=None, finite_on_empty=False, maxstep=6):
+def walk_from(em, g, init_view, tf=None, dask_mode=None, sched_factory=None, finite_on_empty=False, maxstep=6,
+              dtype=None):
     """The trajectory of the code (fits capped at 1..k without threshold, then the fit with the scenario's
     cap and threshold) must be a path of the model's state graph ending in a state with status "done"."""
     tf = tf or Transform()
     s = g["s"]
     data = np.array(s["data"], dtype=float)
     X = tf.fwd(data)
+    if dtype is not None:
+        # the same values in a narrow integer dtype (training data such as 8-bit pixels)
+        Xi = X.astype(dtype)
+        if not np.array_equal(Xi.astype(float), X):
+            return "skip", "values not representable in %s" % dtype
+        X = Xi
     cap = s["cap"]
     thr = fr(s["thr"])
     thr_f = None if thr < 0 else float(thr)
